@@ -635,7 +635,7 @@ def check(g, m, d, s, what):
     assert g.points.shape == P.shape and g.weights.shape == W.shape and g.points.dtype == np.float64 and g.weights.dtype == np.float64, \\
         f'{{what}}: shapes/dtypes {{g.points.shape}} {{g.points.dtype}} {{g.weights.shape}} {{g.weights.dtype}}'
     assert np.array_equal(g.points, P), f'{{what}}: points are not those of {{m}}_{{d}}_{{s}}.npz (max |p| = {{np.abs(np.linalg.norm(g.points, axis=1)).max()!r}}, max difference {{np.abs(g.points - P).max()!r}})'
-    assert np.allclose(g.weights, W, rtol=1e-15, atol=0.0), f'{{what}}: weights are not those of {{m}}_{{d}}_{{s}}.npz (sum {{float(g.weights.sum())!r}}, 4 pi = {{4 * math.pi!r}}, max relative difference {{np.abs(g.weights / W - 1).max()!r}})'
+    assert np.allclose(g.weights, W, rtol=1e-12, atol=0.0), f'{{what}}: weights are not those of {{m}}_{{d}}_{{s}}.npz (sum {{float(g.weights.sum())!r}}, 4 pi = {{4 * math.pi!r}}, max relative difference {{np.abs(g.weights / W - 1).max()!r}})'
 def rejects(**kw):
     try:
         AngularGrid(**kw)
@@ -1026,7 +1026,7 @@ if m in ('lebedev', 'spherical'):
 g = AngularGrid({req}, method=m, cache={cache})
 assert g.degree == d and g.size == s == len(P) and g.points.shape == (s, 3) and g.weights.shape == (s,), (g.degree, g.size, g.points.shape, g.weights.shape)
 assert np.array_equal(g.points, P), 'points differ from the file'
-assert np.allclose(g.weights, W, rtol=1e-15, atol=0.0), f'weights differ from the file (x 4 pi for the normalised families): sum {{g.weights.sum()!r}}, file {{W.sum()!r}}'
+assert np.allclose(g.weights, W, rtol=1e-12, atol=0.0), f'weights differ from the file (x 4 pi for the normalised families): sum {{g.weights.sum()!r}}, file {{W.sum()!r}}'
 """
 
 
@@ -1056,7 +1056,7 @@ def _oracle_every_file(ctx: Ctx, ang):
                     what = f"degree/size/shapes {g.degree}/{g.size}/{g.points.shape}/{g.weights.shape}, the file holds {len(P)} points, advertised {d}/{s}"
                 elif not np.array_equal(g.points, P):
                     what = f"the points differ from the file (max difference {float(np.abs(g.points - P).max())!r})"
-                elif not np.allclose(g.weights, W, rtol=1e-15, atol=0.0):
+                elif not np.allclose(g.weights, W, rtol=1e-12, atol=0.0):
                     what = (f"the weights differ from the file{' x 4 pi' if m in ('lebedev', 'spherical') else ''}: sum {float(g.weights.sum())!r}, "
                             f"file {float(W.sum())!r}, max difference {float(np.abs(g.weights - W).max())!r}")
                 elif not float(np.abs(np.linalg.norm(g.points, axis=1) - 1.0).max()) <= SPHERE_TOL:
